@@ -19,6 +19,7 @@ CONSTANTS Threads,      \* client threads
           MaxPush,      \* bound on number of push() calls
           MaxPop,       \* bound on number of pop() calls
           MaxUnblock,   \* bound on number of unblock_pop() calls
+          MaxSize,      \* bound on number of size()/empty() calls
           Void,         \* TRUE: queue<void>
           AllowDestroy  \* TRUE: the queue may be destroyed while pops are parked
 
@@ -28,9 +29,9 @@ VARIABLES items,     \* _queue: sequence of values
           pc,        \* per thread: "idle" | "push_resolve" | "unblock_resolve"
           hold,      \* per thread: the promise taken out of _awaiters, to be resolved outside the lock
           ret,       \* per thread: result of its last completed push()/unblock_pop()
-          npush, npop, nunb, destroyed
+          npush, npop, nunb, nsize, destroyed
 
-vars == <<items, waiters, fut, pc, hold, ret, npush, npop, nunb, destroyed>>
+vars == <<items, waiters, fut, pc, hold, ret, npush, npop, nunb, nsize, destroyed>>
 
 NoHold == [pop |-> 0, v |-> 0]
 F(s, v) == [st |-> s, v |-> v]
@@ -41,7 +42,7 @@ Init == /\ items = <<>>
         /\ pc = [t \in Threads |-> "idle"]
         /\ hold = [t \in Threads |-> NoHold]
         /\ ret = [t \in Threads |-> "none"]
-        /\ npush = 0 /\ npop = 0 /\ nunb = 0
+        /\ npush = 0 /\ npop = 0 /\ nunb = 0 /\ nsize = 0
         /\ destroyed = FALSE
 
 Val(n) == IF Void THEN 0 ELSE n
@@ -59,7 +60,7 @@ PushCS(t) ==
          ELSE /\ items' = Append(items, Val(npush + 1))
               /\ ret' = [ret EXCEPT ![t] = "false"]
               /\ UNCHANGED <<waiters, hold, pc>>
-    /\ UNCHANGED <<fut, npop, nunb, destroyed>>
+    /\ UNCHANGED <<fut, npop, nunb, nsize, destroyed>>
 
 (* the promise call `p(args...)` after lk.unlock(), queue.h:152-153 *)
 PushResolve(t) ==
@@ -68,7 +69,7 @@ PushResolve(t) ==
     /\ ret' = [ret EXCEPT ![t] = "true"]
     /\ pc' = [pc EXCEPT ![t] = "idle"]
     /\ hold' = [hold EXCEPT ![t] = NoHold]
-    /\ UNCHANGED <<items, waiters, npush, npop, nunb, destroyed>>
+    /\ UNCHANGED <<items, waiters, npush, npop, nunb, nsize, destroyed>>
 
 (* queue::pop, queue.h:197-211: promise parked, or resolved (inside the lock) with the oldest item *)
 PopCS(t) ==
@@ -81,7 +82,7 @@ PopCS(t) ==
          ELSE /\ fut' = Append(fut, F("val", Head(items)))
               /\ items' = Tail(items)
               /\ UNCHANGED waiters
-    /\ UNCHANGED <<pc, hold, ret, npush, nunb, destroyed>>
+    /\ UNCHANGED <<pc, hold, ret, npush, nunb, nsize, destroyed>>
 
 (* queue::unblock_pop, queue.h:223-230 *)
 UnblockCS(t) ==
@@ -94,7 +95,7 @@ UnblockCS(t) ==
               /\ waiters' = Tail(waiters)
               /\ pc' = [pc EXCEPT ![t] = "unblock_resolve"]
               /\ UNCHANGED ret
-    /\ UNCHANGED <<items, fut, npush, npop, destroyed>>
+    /\ UNCHANGED <<items, fut, npush, npop, nsize, destroyed>>
 
 UnblockResolve(t) ==
     /\ pc[t] = "unblock_resolve"
@@ -102,7 +103,14 @@ UnblockResolve(t) ==
     /\ ret' = [ret EXCEPT ![t] = "true"]
     /\ pc' = [pc EXCEPT ![t] = "idle"]
     /\ hold' = [hold EXCEPT ![t] = NoHold]
-    /\ UNCHANGED <<items, waiters, npush, npop, nunb, destroyed>>
+    /\ UNCHANGED <<items, waiters, npush, npop, nunb, nsize, destroyed>>
+
+(* queue::size() / empty(): a critical section of their own (lock_guard), queue.h:162-170 *)
+SizeCS(t) ==
+    /\ ~destroyed /\ pc[t] = "idle" /\ nsize < MaxSize
+    /\ nsize' = nsize + 1
+    /\ ret' = [ret EXCEPT ![t] = "size" \o ToString(Len(items))]
+    /\ UNCHANGED <<items, waiters, fut, pc, hold, npush, npop, nunb, destroyed>>
 
 (* ~queue: parked promises are destroyed => their futures resolve to no-value *)
 Destroy ==
@@ -112,9 +120,9 @@ Destroy ==
     /\ fut' = [i \in 1..Len(fut) |-> IF \E k \in 1..Len(waiters) : waiters[k] = i THEN F("canceled", 0) ELSE fut[i]]
     /\ waiters' = <<>>
     /\ items' = <<>>
-    /\ UNCHANGED <<pc, hold, ret, npush, npop, nunb>>
+    /\ UNCHANGED <<pc, hold, ret, npush, npop, nunb, nsize>>
 
-Next == \/ \E t \in Threads : PushCS(t) \/ PushResolve(t) \/ PopCS(t) \/ UnblockCS(t) \/ UnblockResolve(t)
+Next == \/ \E t \in Threads : PushCS(t) \/ PushResolve(t) \/ PopCS(t) \/ UnblockCS(t) \/ UnblockResolve(t) \/ SizeCS(t)
         \/ Destroy
 
 Spec == Init /\ [][Next]_vars /\ WF_vars(\E t \in Threads : PushResolve(t) \/ UnblockResolve(t))
